@@ -35,7 +35,11 @@ Inductive val :=
 | VRow (r : row)              (* one element of a structured array *)
 | VRows (rs : list row)       (* structured array *)
 | VInts (zs : list Z)         (* integer array *)
-| VTuple (vs : list val).
+| VTuple (vs : list val)
+| VStr (s : str)                       (* only passed through (the `kind` of stable_argsort) *)
+| VMat (m : list (list Z))             (* 2-d integer array *)
+| VRec (fs : list (str * val))         (* one element of a structured array with arbitrary fields *)
+| VRecs (rs : list (list (str * val))). (* structured array with arbitrary fields *)
 
 (* ------------------------------------------------------------------------------------------- *)
 (* Syntax *)
@@ -52,6 +56,7 @@ Inductive expr :=
 | EAnd (a b : expr)               (* only generated in test position; yields the truth value *)
 | EOr (a b : expr)
 | ENot (a : expr)
+| ENeg (a : expr)                  (* -a *)
 | EMax (a b : expr)               (* max(a, b) *)
 | EMin (a b : expr)               (* min(a, b) *)
 | ELen (a : expr)                 (* len(a) *)
@@ -60,18 +65,24 @@ Inductive expr :=
 | EEndtime (a : expr)             (* strax.endtime(a) on an element or on a whole array *)
 | ESliceTo (a hi : expr)          (* a[:hi] *)
 | ESliceFrom (a lo : expr)        (* a[lo:] *)
-| EZeros (n : expr)               (* np.zeros(n, dtype=np.int64) *)
+| EZeros (n : expr)               (* np.zeros(n, dtype=np.int64 / np.int32) *)
+| EZeros2 (n m : expr)            (* np.zeros((n, m), dtype=...) *)
+| EFull (n c : expr)              (* np.ones(n, dtype=...) * c *)
+| EMaxOf (a : expr)               (* a.max() of a non-empty integer array *)
+| EArgsort (a k : expr)           (* strax.sort_enforcement.stable_argsort(a, kind=k) *)
 | ETuple (es : list expr).
 
 Inductive iterable :=
 | IEnum (i d : str) (arr : expr)               (* for i, d in enumerate(arr) *)
 | IRange (i : str) (n : expr)                  (* for i in range(n) *)
-| IEnumZip (i x y : str) (a b : expr).         (* for i, (x, y) in enumerate(zip(a, b)) *)
+| IEnumZip (i x y : str) (a b : expr)          (* for i, (x, y) in enumerate(zip(a, b)) *)
+| IIn (i : str) (arr : expr).                  (* for i in arr *)
 
 Inductive stmt :=
 | SSkip                                          (* pass *)
 | SAssign (x : str) (e : expr)                   (* x = e;  x op= e is generated as x = x op e *)
 | SSetIndex (x : str) (i e : expr)               (* x[i] = e, x an integer array *)
+| SSetIndex2 (x : str) (i j e : expr)            (* x[i, j] = e, x a 2-d integer array *)
 | SSeq (a b : stmt)
 | SIf (c : expr) (a b : stmt)                    (* elif = nested SIf in b *)
 | SFor (it : iterable) (body orelse : stmt)      (* for ... : body  else: orelse *)
@@ -135,6 +146,7 @@ Definition iter_targets (it : iterable) : list str :=
   | IEnum i d _ => [i; d]
   | IRange i _ => [i]
   | IEnumZip i x y _ _ => [i; x; y]
+  | IIn i _ => [i]
   end.
 
 (* names assigned in a statement, in order of first occurrence (with repetitions) *)
@@ -142,6 +154,7 @@ Fixpoint assigned (s : stmt) : list str :=
   match s with
   | SAssign x _ => [x]
   | SSetIndex x _ _ => [x]
+  | SSetIndex2 x _ _ _ => [x]
   | SSeq a b => e_app (assigned a) (assigned b)
   | SIf _ a b => e_app (assigned a) (assigned b)
   | SFor it body orelse => e_app (iter_targets it) (e_app (assigned body) (assigned orelse))
@@ -205,6 +218,48 @@ Definition zeros (n : Z) : option (list Z) :=
 
 Definition len_z {A} (l : list A) : Z := Z.of_nat (length l).
 
+Definition zeros2 (n m : Z) : option (list (list Z)) :=
+  if (n <? 0) || (m <? 0) then None else Some (repeat (repeat 0 (Z.to_nat m)) (Z.to_nat n)).
+
+Definition full (n c : Z) : option (list Z) :=
+  if n <? 0 then None else Some (repeat c (Z.to_nat n)).
+
+Definition set_idx2 (m : list (list Z)) (i j v : Z) : option (list (list Z)) :=
+  match idx m i with
+  | Some r => match set_idx r j v with Some r' => set_idx m i r' | None => None end
+  | None => None
+  end.
+
+Definition max_of (l : list Z) : option Z :=
+  match l with [] => None | x :: r => Some (zmaxl x r) end.
+
+(* specified semantics of stable_argsort(keys, kind="mergesort"): the indices 0..n-1 ordered by
+   key, equal keys in index order (stable insertion sort; any stable sort gives the same list) *)
+Fixpoint as_ins (x : nat * Z) (l : list (nat * Z)) : list (nat * Z) :=
+  match l with
+  | [] => [x]
+  | y :: r => if snd x <=? snd y then x :: l else y :: as_ins x r
+  end.
+Definition argsort_pairs (keys : list Z) : list (nat * Z) :=
+  fold_right as_ins [] (combine (seq 0 (length keys)) keys).
+Definition stable_argsort (keys : list Z) : list Z := map (fun p => Z.of_nat (fst p)) (argsort_pairs keys).
+
+Fixpoint rec_get (f : str) (fs : list (str * val)) : option val :=
+  match fs with
+  | [] => None
+  | (g, v) :: rest => if String.eqb g f then Some v else rec_get f rest
+  end.
+
+Fixpoint recs_col (f : str) (rs : list (list (str * val))) : option (list Z) :=
+  match rs with
+  | [] => Some []
+  | r :: rest =>
+      match rec_get f r, recs_col f rest with
+      | Some (VInt z), Some zs => Some (z :: zs)
+      | _, _ => None
+      end
+  end.
+
 (* ------------------------------------------------------------------------------------------- *)
 (* Expressions *)
 
@@ -248,6 +303,8 @@ Definition v_len (v : val) : option val :=
   match v with
   | VRows rs => Some (VInt (len_z rs))
   | VInts zs => Some (VInt (len_z zs))
+  | VMat m => Some (VInt (len_z m))
+  | VRecs rs => Some (VInt (len_z rs))
   | _ => None
   end.
 
@@ -255,6 +312,7 @@ Definition v_index (a i : val) : option val :=
   match a, i with
   | VRows rs, VInt k => option_map VRow (idx rs k)
   | VInts zs, VInt k => option_map VInt (idx zs k)
+  | VRecs rs, VInt k => option_map VRec (idx rs k)
   | _, _ => None
   end.
 
@@ -262,6 +320,8 @@ Definition v_field (a : val) (f : str) : option val :=
   match a with
   | VRow r => option_map VInt (field_get f r)
   | VRows rs => option_map VInts (field_all f rs)
+  | VRec fs => rec_get f fs
+  | VRecs rs => option_map VInts (recs_col f rs)
   | _ => None
   end.
 
@@ -289,6 +349,25 @@ Definition v_slice_from (a i : val) : option val :=
 Definition v_zeros (n : val) : option val :=
   match n with VInt k => option_map VInts (zeros k) | _ => None end.
 
+Definition v_zeros2 (n m : val) : option val :=
+  match n, m with VInt a, VInt b => option_map VMat (zeros2 a b) | _, _ => None end.
+
+Definition v_full (n c : val) : option val :=
+  match n, c with VInt a, VInt b => option_map VInts (full a b) | _, _ => None end.
+
+Definition v_max_of (a : val) : option val :=
+  match a with VInts zs => option_map VInt (max_of zs) | _ => None end.
+
+Definition mergesort_name : str := "mergesort"%string.
+
+(* any other kind is rejected by strax with SortingError; here it is stuck (the refinement
+   theorems are stated for kind = "mergesort", the only value strax passes) *)
+Definition v_argsort (a k : val) : option val :=
+  match a, k with
+  | VInts zs, VStr kind => if String.eqb kind mergesort_name then Some (VInts (stable_argsort zs)) else None
+  | _, _ => None
+  end.
+
 Definition v_int2 (f : Z -> Z -> option val) (a b : val) : option val :=
   match a, b with VInt x, VInt y => f x y | _, _ => None end.
 
@@ -314,6 +393,7 @@ Fixpoint eval (e : expr) (en : env) : option val :=
                | None => None
                end
   | ENot a => option_map (fun b => VBool (negb b)) (obind (eval a en) truthy)
+  | ENeg a => match eval a en with Some (VInt x) => Some (VInt (- x)) | _ => None end
   | EMax a b => obind (eval a en) (fun va => obind (eval b en) (fun vb =>
                   v_int2 (fun x y => Some (VInt (Z.max x y))) va vb))
   | EMin a b => obind (eval a en) (fun va => obind (eval b en) (fun vb =>
@@ -325,6 +405,10 @@ Fixpoint eval (e : expr) (en : env) : option val :=
   | ESliceTo a i => obind (eval a en) (fun va => obind (eval i en) (fun vi => v_slice_to va vi))
   | ESliceFrom a i => obind (eval a en) (fun va => obind (eval i en) (fun vi => v_slice_from va vi))
   | EZeros n => obind (eval n en) v_zeros
+  | EZeros2 n m => obind (eval n en) (fun vn => obind (eval m en) (fun vm => v_zeros2 vn vm))
+  | EFull n c => obind (eval n en) (fun vn => obind (eval c en) (fun vc => v_full vn vc))
+  | EMaxOf a => obind (eval a en) v_max_of
+  | EArgsort a k => obind (eval a en) (fun va => obind (eval k en) (fun vk => v_argsort va vk))
   | ETuple es =>
       option_map VTuple
         ((fix go (l : list expr) : option (list val) :=
@@ -349,6 +433,7 @@ Definition v_elems (v : val) : option (list val) :=
   match v with
   | VRows rs => Some (map VRow rs)
   | VInts zs => Some (map VInt zs)
+  | VRecs rs => Some (map VRec rs)
   | _ => None
   end.
 
@@ -360,6 +445,8 @@ Definition range_binds (i : str) (k n : nat) : list (list (str * val)) :=
   map (fun j => [(i, zi j)]) (seq k n).
 Definition zip_binds (i x y : str) (k : nat) (la lb : list val) : list (list (str * val)) :=
   map (fun kv => [(i, zi (fst kv)); (x, fst (snd kv)); (y, snd (snd kv))]) (enum_from k (combine la lb)).
+
+Definition in_binds (i : str) (els : list val) : list (list (str * val)) := map (fun v => [(i, v)]) els.
 
 Definition eval_iter (it : iterable) (en : env) : option (list (list (str * val))) :=
   match it with
@@ -375,6 +462,7 @@ Definition eval_iter (it : iterable) (en : env) : option (list (list (str * val)
       obind (obind (eval a en) v_elems) (fun la =>
       obind (obind (eval b en) v_elems) (fun lb =>
         Some (zip_binds i x y 0 la lb)))
+  | IIn i arr => obind (obind (eval arr en) v_elems) (fun els => Some (in_binds i els))
   end.
 
 (* ------------------------------------------------------------------------------------------- *)
@@ -425,6 +513,12 @@ Fixpoint exec (fuel : nat) (s : stmt) (e : env) : outcome :=
       | Some (VInts zs), Some (VInt k), Some (VInt v) =>
           match set_idx zs k v with Some zs' => ONormal (update e x (VInts zs')) | None => OStuck end
       | _, _, _ => OStuck
+      end
+  | SSetIndex2 x i j a =>
+      match lookup e x, eval i e, eval j e, eval a e with
+      | Some (VMat m), Some (VInt ki), Some (VInt kj), Some (VInt v) =>
+          match set_idx2 m ki kj v with Some m' => ONormal (update e x (VMat m')) | None => OStuck end
+      | _, _, _, _ => OStuck
       end
   | SSeq a b => match exec fuel a e with ONormal e' => exec fuel b e' | o => o end
   | SIf c a b =>
@@ -483,6 +577,34 @@ Fixpoint first_while (s : stmt) : option (expr * stmt) :=
   | _ => None
   end.
 
+(* all for loops / while loops of a statement, in textual order (outer before inner) *)
+Fixpoint all_fors (s : stmt) : list (iterable * stmt * stmt) :=
+  match s with
+  | SFor it b o => (it, b, o) :: all_fors b ++ all_fors o
+  | SSeq a b => all_fors a ++ all_fors b
+  | SIf _ a b => all_fors a ++ all_fors b
+  | SWhile _ b => all_fors b
+  | _ => []
+  end.
+
+Fixpoint all_whiles (s : stmt) : list (expr * stmt) :=
+  match s with
+  | SWhile c b => (c, b) :: all_whiles b
+  | SSeq a b => all_whiles a ++ all_whiles b
+  | SIf _ a b => all_whiles a ++ all_whiles b
+  | SFor _ b o => all_whiles b ++ all_whiles o
+  | _ => []
+  end.
+
+Definition nth_for_body (k : nat) (s : stmt) : stmt :=
+  match nth_error (all_fors s) k with Some (_, b, _) => b | None => SSkip end.
+Definition nth_for_targets (k : nat) (s : stmt) : list str :=
+  match nth_error (all_fors s) k with Some (it, _, _) => iter_targets it | None => [] end.
+Definition nth_while_cond (k : nat) (s : stmt) : expr :=
+  match nth_error (all_whiles s) k with Some (c, _) => c | None => EBool false end.
+Definition nth_while_body (k : nat) (s : stmt) : stmt :=
+  match nth_error (all_whiles s) k with Some (_, b) => b | None => SSkip end.
+
 Definition for_body (s : stmt) : stmt := match first_for s with Some (_, b, _) => b | None => SSkip end.
 Definition for_else (s : stmt) : stmt := match first_for s with Some (_, _, o) => o | None => SSkip end.
 Definition for_targets (s : stmt) : list str :=
@@ -503,6 +625,7 @@ Ltac mp_eval :=
      e_snoc e_app e_len e_combine e_nat_eqb
      eval eval_test eval_iter truthy eval_bin eval_cmp obind option_map
      v_len v_index v_field v_endtime v_slice_to v_slice_from v_zeros v_int2 v_elems zi
+     v_zeros2 v_full v_max_of v_argsort mergesort_name
      field_get field_all lookup update bind_all
      fname fparams fbody
      String.eqb Ascii.eqb Bool.eqb].
@@ -513,6 +636,7 @@ Ltac mp_eval_in H :=
      e_snoc e_app e_len e_combine e_nat_eqb
      eval eval_test eval_iter truthy eval_bin eval_cmp obind option_map
      v_len v_index v_field v_endtime v_slice_to v_slice_from v_zeros v_int2 v_elems zi
+     v_zeros2 v_full v_max_of v_argsort mergesort_name
      field_get field_all lookup update bind_all
      fname fparams fbody
      String.eqb Ascii.eqb Bool.eqb] in H.
@@ -537,6 +661,13 @@ Ltac mp_step :=
                   match set_idx zs k v with Some zs' => ONormal (update e x (VInts zs')) | None => OStuck end
               | _, _, _ => OStuck
               end)
+  | |- context [exec ?f (SSetIndex2 ?x ?i ?j ?a) ?e] =>
+      change (exec f (SSetIndex2 x i j a) e)
+        with (match lookup e x, eval i e, eval j e, eval a e with
+              | Some (VMat m), Some (VInt ki), Some (VInt kj), Some (VInt v) =>
+                  match set_idx2 m ki kj v with Some m' => ONormal (update e x (VMat m')) | None => OStuck end
+              | _, _, _, _ => OStuck
+              end)
   | |- context [exec ?f (SIf ?c ?a ?b) ?e] =>
       change (exec f (SIf c a b) e)
         with (match eval_test c e with
@@ -558,7 +689,7 @@ Ltac mp_step :=
               end)
   | |- context [exec ?f (SWhile ?c ?b) ?e] =>
       change (exec f (SWhile c b) e) with (iter_while f c (exec f b) e)
-  end; mp_eval; cbn [negb].
+  end; mp_eval; cbn [negb rec_get String.eqb Ascii.eqb Bool.eqb].
 
 Ltac mp_steps := repeat mp_step.
 
@@ -700,3 +831,28 @@ Qed.
 
 Lemma map_const_repeat {A B} (b : B) (l : list A) : map (fun _ => b) l = repeat b (length l).
 Proof. induction l as [|x l IH]; cbn [map length repeat]; [reflexivity|]. rewrite IH. reflexivity. Qed.
+
+Lemma in_binds_nil i : in_binds i [] = [].
+Proof. reflexivity. Qed.
+
+Lemma in_binds_cons i v r : in_binds i (v :: r) = [(i, v)] :: in_binds i r.
+Proof. reflexivity. Qed.
+
+Lemma full_nat k c : full (Z.of_nat k) c = Some (repeat c k).
+Proof. unfold full. replace (Z.of_nat k <? 0) with false by lia. rewrite Nat2Z.id. reflexivity. Qed.
+
+Lemma zeros2_nat n m : zeros2 (Z.of_nat n) (Z.of_nat m) = Some (repeat (repeat 0 m) n).
+Proof.
+  unfold zeros2. replace ((Z.of_nat n <? 0) || (Z.of_nat m <? 0)) with false by lia.
+  rewrite !Nat2Z.id. reflexivity.
+Qed.
+
+Lemma set_idx2_app_mid (m1 m2 : list (list Z)) r1 x r2 v :
+  set_idx2 (m1 ++ (r1 ++ x :: r2) :: m2) (Z.of_nat (length m1)) (Z.of_nat (length r1)) v
+  = Some (m1 ++ (r1 ++ v :: r2) :: m2).
+Proof. unfold set_idx2. rewrite idx_app_mid, set_idx_app_mid, set_idx_app_mid. reflexivity. Qed.
+
+Lemma idx_nth_error {A} (l : list A) k x : nth_error l k = Some x -> idx l (Z.of_nat k) = Some x.
+Proof.
+  intros H. rewrite idx_nat; [exact H|]. apply nth_error_Some. rewrite H. discriminate.
+Qed.
